@@ -4,7 +4,7 @@ import numpy as np
 
 from checks import l0common
 from sim import meshsim, repo
-from sim.core import Violation
+from sim.core import Violation, stream
 
 PROPERTY = 'C18'
 LEVEL = 'exploration'
@@ -42,7 +42,7 @@ MODE = {'compare': False, 'post': ['pieces']}
 OWN = {'piece': 1, 'three-elements': 1, 'ctor-assert': 1}
 
 
-def curve_clause(name, cov):
+def curve_clause(name, cov, order_seed=0):
     """Direct evaluation of the curve clause (no simulation content)."""
     gamma = meshsim.make_curve(name)
     L = gamma.gamma_length
@@ -71,6 +71,32 @@ def curve_clause(name, cov):
         if i + 1 < len(gamma.pw_gamma):
             if not np.allclose(g(b), gamma.pw_gamma[i + 1](b), atol=1e-12):
                 bad = 'discontinuous at break {}'.format(i + 1)
+    # whole-curve evaluation of argument arrays that mix the pieces, in any
+    # order: every entry must land where the piece containing it puts it
+    allx, ref = [], []
+    for i, g in enumerate(gamma.pw_gamma):
+        a, b = ps[i], ps[i + 1]
+        for x in a + (b - a) * np.linspace(0.0, 1.0, 7)[:-1]:
+            allx.append(float(x))
+            ref.append(np.ravel(g(float(x))))
+    allx, ref = np.array(allx), np.array(ref).T
+    rng = stream(order_seed, 'eval-order')
+    perm = list(range(len(allx)))
+    rng.shuffle(perm)
+    orders = [list(range(len(allx))), list(range(len(allx)))[::-1], perm,
+              [perm[0], perm[1]] if allx[perm[0]] > allx[perm[1]] else
+              [perm[1], perm[0]]]
+    for o in orders:
+        got = np.asarray(gamma.eval(allx[o]))
+        if got.shape != (2, len(o)) or not np.allclose(
+                got, ref[:, o], atol=1e-12, rtol=0):
+            bad = 'eval of an argument array mixing pieces ({})'.format(
+                'ascending' if o == orders[0] else 'descending'
+                if o == orders[1] else 'unordered')
+    for k in perm[:4]:
+        if not np.allclose(np.ravel(gamma.eval(float(allx[k]))), ref[:, k],
+                           atol=1e-12, rtol=0):
+            bad = 'eval of a scalar'
     cov.inc('curve_clause_direct')
     if bad:
         raise Violation(PROPERTY, 'curve', 'curve-clause/' + name,
@@ -82,7 +108,8 @@ def generate(seed, cfg):
 
 
 def execute(run, cov, log):
-    curve_clause(run['config']['curve'], cov)
+    from sim.core import H as _H
+    curve_clause(run['config']['curve'], cov, _H(run))
     case = l0common.execute_history(PROPERTY, run, cov, log, dict(MODE), OWN)
     cfg = run['config']
     if cfg.get('time') is not None and len(cfg['time']) > 3:
